@@ -69,7 +69,8 @@ fn build_case(c: &Case) -> (Vec<Built>, Vec<usize>) {
     let mut out = vec![];
     if c.backing > 0 {
         s.backing_name = Some("sim1".into());
-        let bv = if c.backing == 1 { vsize } else { cs + cs / 2 };
+        // (a virtual size is a multiple of 512)
+        let bv = if c.backing == 1 { vsize } else { (cs + cs / 2) & !511 };
         let mut b = ImageSpec::new(c.cb, c.order.max(2), bv);
         b.version = c.version;
         b.tag_base = 0xBA0000;
